@@ -53,6 +53,14 @@ class _Base:
         self._pos = v
         return D.FakeStatus(50)
 
+    # every motor is Readable (grid scans insist on it); which of locate / .position / read the relative wrappers
+    # use is decided by the kind-specific attributes below
+    def read(self):
+        return {self.name: {"value": self._pos, "timestamp": 0.0}}
+
+    def describe(self):
+        return {self.name: {"source": "fake", "dtype": "number", "shape": []}}
+
 
 class LocMotor(_Base):
     def set(self, v):
@@ -74,12 +82,6 @@ class PosMotor(_Base):
 class ReadMotor(_Base):
     def set(self, v):
         return self._move(v)
-
-    def read(self):
-        return {self.name: {"value": self._pos, "timestamp": 0.0}}
-
-    def describe(self):
-        return {self.name: {"source": "fake", "dtype": "number", "shape": []}}
 
 
 KINDS = [LocMotor, PosMotor, ReadMotor]
